@@ -116,6 +116,11 @@ def g_formula(draw):
         p["means"][rare] = p["means"][rare] + 100.0 * p["scales"] * r0.choice([-1.0, 1.0], F) * np.exp(r0.uniform(0, 2))
     n = gen.integer(draw, 1, 30 if gen.big() else 12)
     X, kind = gen.data_from(draw, p, n)
+    if gen.choice(draw, [False, False, False, True]):
+        # "all positive weights": mixing weights handed over on another scale (the user guide itself assigns
+        # [0.8, 0.5]); the value reported is still log sum_c w_c N_c with the weights the machine holds
+        p["weights"] = np.asarray(p["weights"], dtype=float) * gen.choice(draw, [1.3, 0.5, 7.0])
+        p["unnormalised"] = True
     how = gen.presentation(draw)
     if how == "int":
         X = gen.integral(X)
